@@ -80,6 +80,8 @@ CSYM = [[{"CPU": "sym"}]]
 CSYM2 = [[{"CPU": "sym"}, {"CPU": "sym"}]]
 MULTI = [[[["CPU", "sym"], ["GPU", 1], ["CPU", "sym"]]]]
 CPUGPU = [[{"CPU": "sym", "GPU": "sym"}]]
+# two workers with named resource instances (GPU:0, GPU:1 | GPU:2, GPU:3), as the loaders build from "name:id"
+PINNED = [[[["GPU", 1, "0"], ["GPU", 1, "1"]], [["GPU", 1, "2"], ["GPU", 1, "3"]]]]
 
 
 def W(name, graphs, cluster=C1, policy="EDF", **k):
